@@ -32,33 +32,55 @@ def consume_flat(api: str, src, **kw) -> tuple[list, str | None]:
     return out, None
 
 
-def consume_grouped(api: str, src) -> tuple[list, str | None]:
+def consume_grouped(api: str, src, keep: bool = True) -> tuple[list, str | None]:
     """Concatenated content of the sinks yielded before the end / the exception."""
     from mc import drivers as DR  # noqa: PLC0415
     from mc import terms as T  # noqa: PLC0415
 
     out: list = []
+    kept: list = []  # the containers themselves: a consumer may look at them later
+
+    def content(c) -> list:
+        if api == "generic":
+            return ([("ns", p, T.from_generic(i)) for p, i in c.namespaces]
+                    + [("st", T.norm_st(T.st_from_generic(s))) for s in c])
+        return DR._graph_events(c)
+
+    exc = None
     try:
         if api == "generic":
             from pyjelly.integrations.generic.parse import parse_jelly_grouped  # noqa: PLC0415
-
-            for sink in parse_jelly_grouped(src):
-                out += [("ns", p, T.from_generic(i)) for p, i in sink.namespaces]
-                out += [("st", T.norm_st(T.st_from_generic(s))) for s in sink]
         else:
             from pyjelly.integrations.rdflib.parse import parse_jelly_grouped  # noqa: PLC0415
-
-            for g in parse_jelly_grouped(src):
-                out += DR._graph_events(g)
+        for c in parse_jelly_grouped(src):
+            if keep:
+                kept.append(c)
+            out += content(c)
     except Exception as e:  # noqa: BLE001
-        return out, type(e).__name__
-    return out, None
+        exc = type(e).__name__
+    later = [e for c in kept for e in content(c)] if keep else out
+    if keep and sorted(map(repr, later)) != sorted(map(repr, out)):
+        out = [("changed-after-yield", len(out), len(later))]
+    return out, exc
 
 
 def consume_to_graph(api: str, src, quads: bool) -> tuple[list, str | None]:
-    """What a Graph/Dataset holds after Graph.parse() returned or raised (rdflib only)."""
-    import rdflib  # noqa: PLC0415
+    """What the caller's Graph/Dataset/sink holds after the parse returned or raised."""
     from mc import drivers as DR  # noqa: PLC0415
+
+    if api == "generic":
+        from pyjelly.integrations.generic.generic_sink import GenericStatementSink  # noqa: PLC0415
+        from pyjelly.integrations.generic.parse import parse_jelly_to_graph  # noqa: PLC0415
+        from mc import terms as T  # noqa: PLC0415
+
+        sink = GenericStatementSink()
+        exc = None
+        try:
+            parse_jelly_to_graph(src, sink_factory=lambda: sink)
+        except Exception as e:  # noqa: BLE001
+            exc = type(e).__name__
+        return [("st", T.norm_st(T.st_from_generic(s))) for s in sink], exc
+    import rdflib  # noqa: PLC0415
 
     g = rdflib.Dataset() if quads else rdflib.Graph()
     exc = None
@@ -94,6 +116,9 @@ def judge(entry, k: int, got: list, mode: str, api: str) -> str | None:
                     f"items were delivered completely before offset {k}")
         return None
     # grouped: sinks are sets/ordered containers; compare statements only
+    if got and got[0][0] == "changed-after-yield":
+        return (f"the groups handed out held {got[0][1]} items when they were yielded and hold "
+                f"{got[0][2]} after the parser stopped")
     gs = [e for e in got if e[0] == "st"]
     want = [e for e in complete if e[0] == "st"]
     fulls = [e for e in full if e[0] == "st"]
@@ -179,8 +204,7 @@ def shard(job) -> dict:
                     continue
                 strict = ("flat_strict",) if entry.get("flat_logical") and source in (
                     "bytesio", "file") else ()
-                for mode in ("flat", "grouped") + strict + (
-                        ("graph_parse",) if api == "rdflib" else ()):
+                for mode in ("flat", "grouped", "graph_parse") + strict:
                     case = {"corpus": size, "stream": entry["name"], "cut": k, "source": source,
                             "api": api, "mode": mode}
                     acc.evals += 1
